@@ -5,9 +5,10 @@
 // effectiveRequestUri / canonicalCleanUrl, AnyP::Uri::absolute/authority/absolutePath, urlCanonicalFakeHttps,
 // urlCanonicalCleanWithoutRequest, HttpHeader::packInto, wordlistCat, Auth::UserRequest::username.
 //
-// Symbolic: two bytes inside an otherwise concrete, markup-free datum: the first may be any byte except NUL, the second any
-// printable ASCII byte (0x20..0x7e; includes all five metacharacters). html_quote() alone maps a byte to one of 164
-// different outputs, which is why only one of the two bytes ranges over all values.
+// Symbolic bytes inside an otherwise concrete, markup-free datum, in two modes:
+//   "pair": <prefix> b 'a' b with both b any printable ASCII byte (0x20..0x7e; includes all five metacharacters)
+//   "any":  <prefix> b 'a'   with b any byte except NUL (html_quote() alone maps a byte to one of 164 different outputs,
+//           so a fully symbolic byte costs 164 paths; hence only one of them at a time)
 // Template: "[%X]" for one %code X per path (concrete, markup-free), compiled by the real ErrorState::compile().
 // Oracle: the compiled output contains no raw < > " ' and every & starts one of the entities html_quote() produces
 // (&lt; &gt; &quot; &amp; &apos; &#N;). Template and concrete datum parts carry no markup, so any raw metacharacter in the
@@ -37,6 +38,7 @@
 #define protected public
 #include "errorpage.h"
 #include "HttpRequest.h"
+#include "MasterXaction.h"
 #include "anyp/Uri.h"
 #include "auth/User.h"
 #include "auth/UserRequest.h"
@@ -48,22 +50,31 @@
 #include "StatHist.h"
 #include "common.h"
 
+// peer_select.cc is not linked: HierarchyLogEntry (a member of every HttpRequest) embeds a ping_data, whose constructor lives there
+#include "PingData.h"
+ping_data::ping_data(): n_sent(0), n_recv(0), n_replies_expected(0), timeout(0), timedout(0), w_rtt(0), p_rtt(0)
+{
+    start.tv_sec = 0; start.tv_usec = 0; stop.tv_sec = 0; stop.tv_usec = 0;
+}
 // StatHist.cc (floating point histograms of per-header statistics) is not linked
 void StatHist::enumInit(unsigned int) {}
 void StatHist::count(double) {}
 
 // ---------------------------------------------------------------- data with symbolic bytes
-// '\x01' = any byte except NUL, '\x02' = any printable ASCII byte; the rest of the literal is concrete
-static char *symString(const char *tmpl)
+enum Mode { PAIR, ANY };
+static char *datum(const char *prefix, const Mode mode, const char mid = 'a')
 {
-    const size_t n = strlen(tmpl);
-    char *s = (char *)xmalloc(n + 1);
-    for (size_t i = 0; i < n; ++i) {
-        if (tmpl[i] == '\x01') { s[i] = (char)vf_nondet_u8("any"); vf_assume(s[i] != 0); }
-        else if (tmpl[i] == '\x02') { s[i] = (char)vf_nondet_u8("printable"); vf_assume(s[i] >= 0x20 && s[i] <= 0x7e); }
-        else s[i] = tmpl[i];
+    const size_t pl = strlen(prefix);
+    char *s = (char *)xcalloc(pl + 4, 1);
+    memcpy(s, prefix, pl);
+    if (mode == ANY) {
+        s[pl] = (char)vf_nondet_u8("any"); vf_assume(s[pl] != 0);
+        s[pl + 1] = mid;
+    } else {
+        s[pl] = (char)vf_nondet_u8("printable"); vf_assume(s[pl] >= 0x20 && s[pl] <= 0x7e);
+        s[pl + 1] = mid;
+        s[pl + 2] = (char)vf_nondet_u8("printable"); vf_assume(s[pl + 2] >= 0x20 && s[pl + 2] <= 0x7e);
     }
-    s[n] = 0;
     return s;
 }
 
@@ -102,125 +113,32 @@ static ErrorState *rawError()
     return static_cast<ErrorState *>(xcalloc(1, sizeof(ErrorState)));
 }
 
-// HttpRequest without its constructor chain (MasterXaction, HierarchyLogEntry, BodyPipe ...): zeroed memory with the members
-// the %codes read constructed in place. RefCount<HttpRequest> needs a vtable pointer to reach the virtual Lock base, which
-// such a block does not have, so the raw pointer is stored into ErrorState::request directly (never locked or released).
-static HttpRequest *rawRequest(ErrorState *e)
+// A real HttpRequest (real constructors: %R calls virtual member functions); it is never destroyed.
+static HttpRequest *newRequest(ErrorState *e)
 {
-    HttpRequest *r = static_cast<HttpRequest *>(xcalloc(1, sizeof(HttpRequest)));
-    ::new (static_cast<void *>(&r->method)) HttpRequestMethod(Http::METHOD_GET);
-    ::new (static_cast<void *>(&r->url)) AnyP::Uri();   // AnyP::Uri has a class-specific operator new (MEMPROXY)
-    ::new (static_cast<void *>(&r->header)) HttpHeader(hoRequest);
-    ::new (static_cast<void *>(&r->extacl_message)) String();
+    MasterXaction::Pointer mx = MasterXaction::MakePortful(nullptr);
+    HttpRequest *r = new HttpRequest(mx);
+    r->method = HttpRequestMethod(Http::METHOD_GET);
     r->url.scheme_ = AnyP::UriScheme(AnyP::PROTO_HTTP);
     strcpy(r->url.host_, "h.example");
     r->url.port_ = 80;
     r->url.path_ = SBuf("/p");
-    static_assert(sizeof(e->request) == sizeof(HttpRequest *), "RefCount is a single pointer");
-    *reinterpret_cast<HttpRequest **>(&e->request) = r;
+    e->request = r;     // RefCount assignment into the zeroed ErrorState
+    r->lock();          // never destroyed
     return r;
-}
-
-static void setup()
-{
-    vf_quiet();
-    AnyP::UriScheme::Init();
-    starting_up = 0;                      // a template error would be swallowed, as at run time
-    Config.onoff.strip_query_terms = 1;   // squid.conf default
-    visible_appname_string = "squid";
-}
-
-static void build(ErrorState *e, const char code)
-{
-    char tmpl[8] = "[%X]";
-    tmpl[2] = code;
-    const SBuf out = e->compile(tmpl, false, true);
-    vf_assert(out.length() >= 2 && out[0] == '[' && out[out.length() - 1] == ']', "template text is kept");
-    checkEscaped(out);
-    WITNESS_POINT();
-}
-
-// ---------------------------------------------------------------- entries
-// no parsed request (invalid request / invalid URL errors): the raw URL string is all there is
-extern "C" void c33_raw_url(void)
-{
-    setup();
-    ErrorState *e = rawError();
-    e->url = symString("http://h/\x01" "a\x02");
-    build(e, "Uu"[vf_choose(2, "code")]);
-}
-
-// FTP data, DNS and preformatted messages
-extern "C" void c33_ftp_dns(void)
-{
-    setup();
-    ErrorState *e = rawError();
-    const unsigned which = vf_choose(6, "code");
-    switch (which) {
-    case 0: e->ftp.request = symString("RETR \x01" "a\x02"); build(e, 'f'); break;
-    case 1: e->ftp.reply = symString("550 \x01" "a\x02"); build(e, 'F'); break;
-    case 2: wordlistAdd(&e->ftp.server_msg, symString("550-\x01" "a\x02")); wordlistAdd(&e->ftp.server_msg, "550 end"); build(e, 'g'); break;
-    case 3: e->ftp.cwd_msg = symString("250 \x01" "a\x02"); build(e, 'z'); break;
-    case 4: { char *s = symString("no \x01" "a\x02"); ::new (static_cast<void *>(&e->dnsError)) std::optional<SBuf>(SBuf(s)); build(e, 'z'); } break;
-    default: e->err_msg = symString("msg \x01" "a\x02"); build(e, 'Z'); break;
-    }
-}
-
-// request URI parts: host, path, scheme, method
-extern "C" void c33_request_uri(void)
-{
-    setup();
-    ErrorState *e = rawError();
-    HttpRequest *r = rawRequest(e);
-    const unsigned shape = vf_choose(4, "shape");
-    switch (shape) {
-    case 0: { char *h = symString("h\x01" "a\x02"); strcpy(r->url.host_, h); } break;                 // host
-    case 1: r->url.path_ = SBuf(symString("/\x01?\x02"));  break;                                     // path and query
-    case 2: r->method.theMethod = Http::METHOD_OTHER; r->method.theImage = SBuf(symString("M\x01" "a\x02")); break; // extension method
-    default: r->url.scheme_ = AnyP::UriScheme(AnyP::PROTO_UNKNOWN, symString("s\x01" "a\x02")); break; // unknown scheme
-    }
-    static const char codes[4][5] = { "HUuR", "UuR", "MR", "PUu" };
-    const char *cs = codes[shape];
-    build(e, cs[vf_choose((uint32_t)strlen(cs), "code")]);
-}
-
-// CONNECT (authority-form) and the peer/host name recorded while forwarding
-extern "C" void c33_request_connect(void)
-{
-    setup();
-    ErrorState *e = rawError();
-    HttpRequest *r = rawRequest(e);
-    if (vf_choose(2, "shape") == 0) {
-        r->method.theMethod = Http::METHOD_CONNECT;
-        r->url.port_ = 443;
-        char *h = symString("h\x01" "a\x02"); strcpy(r->url.host_, h);
-        build(e, "UuH"[vf_choose(3, "code")]);
-    } else {
-        char *h = symString("p\x01" "a\x02"); strcpy(r->hier.host, h);
-        build(e, 'H');
-    }
-}
-
-// request header values and names (%R = the whole request as received)
-extern "C" void c33_request_headers(void)
-{
-    setup();
-    ErrorState *e = rawError();
-    HttpRequest *r = rawRequest(e);
-    if (vf_choose(2, "shape") == 0)
-        r->header.putStr(Http::HdrType::USER_AGENT, symString("u\x01" "a\x02"));
-    else
-        r->header.addEntry(new HttpHeaderEntry(Http::HdrType::OTHER, SBuf(symString("X-\x02")), symString("v\x01")));
-    build(e, 'R');
 }
 
 // credentials user name (%a). Auth::UserRequest/Auth::User are abstract: minimal concrete subclasses, real base classes.
 struct HarnessUser: public Auth::User {
+    MEMPROXY_CLASS(HarnessUser);
+public:
     HarnessUser(): Auth::User(nullptr, nullptr) {}
     int32_t ttl() const override { return 3600; }
     void addToNameCache() override {}
 };
 struct HarnessUserRequest: public Auth::UserRequest {
+    MEMPROXY_CLASS(HarnessUserRequest);     // Auth::UserRequest::operator new refuses direct allocation
+public:
     bool authenticated() const override { return 1; }
     void authenticate(HttpRequest *, ConnStateData *, Http::HdrType) override {}
     Auth::Direction module_direction() override { return Auth::CRED_VALID; }
@@ -228,16 +146,92 @@ struct HarnessUserRequest: public Auth::UserRequest {
     const char *credentialsStr() override { return ""; }
     const char *connLastHeader() override { return nullptr; }
 };
-extern "C" void c33_user(void)
+
+// ---------------------------------------------------------------- where the client's bytes sit x the %codes that show them
+struct Variant { const char *label; const char *codes; };
+static const Variant variants[] = {
+    /* 0*/ {"url-without-request", "Uu"},   // invalid request / invalid URL errors: ErrorState::url is all there is
+    /* 1*/ {"ftp-request", "f"},
+    /* 2*/ {"ftp-reply", "F"},
+    /* 3*/ {"ftp-server-msg", "g"},
+    /* 4*/ {"ftp-cwd-msg", "z"},
+    /* 5*/ {"dns-error", "z"},
+    /* 6*/ {"err-msg", "Z"},
+    /* 7*/ {"host", "HUuR"},
+    /* 8*/ {"path-query", "UuR"},
+    /* 9*/ {"method", "MR"},
+    /*10*/ {"scheme", "PUu"},
+    /*11*/ {"connect-host", "UuH"},
+    /*12*/ {"forwarding-host", "H"},
+    /*13*/ {"header-value", "R"},
+    /*14*/ {"header-name", "R"},
+    /*15*/ {"user-name", "a"},
+};
+#define NVARIANTS (sizeof(variants) / sizeof(variants[0]))
+
+static void place(ErrorState *e, const unsigned v, const Mode mode)
 {
-    setup();
-    ErrorState *e = rawError();
-    HttpRequest *r = rawRequest(e);
-    Auth::User::Pointer u = new HarnessUser;
-    u->username(symString("u\x01" "a\x02"));
-    Auth::UserRequest::Pointer ur = new HarnessUserRequest;
-    ur->user(u);
-    u->lock(); ur->lock();  // never destroyed
-    r->auth_user_request = ur;
-    build(e, 'a');
+    HttpRequest *r = v >= 7 ? newRequest(e) : nullptr;
+    switch (v) {
+    case 0: e->url = datum("http://h/", mode); break;
+    case 1: e->ftp.request = datum("RETR ", mode); break;
+    case 2: e->ftp.reply = datum("550 ", mode); break;
+    case 3: wordlistAdd(&e->ftp.server_msg, datum("550-", mode)); wordlistAdd(&e->ftp.server_msg, "550 end"); break;
+    case 4: e->ftp.cwd_msg = datum("250 ", mode); break;
+    case 5: ::new (static_cast<void *>(&e->dnsError)) std::optional<SBuf>(SBuf(datum("no ", mode))); break;
+    case 6: e->err_msg = datum("msg ", mode); break;
+    case 7: strcpy(r->url.host_, datum("h", mode)); break;
+    case 8: r->url.path_ = SBuf(datum("/", mode, '?')); break;                     // one byte in the path, one in the query
+    case 9: r->method.theMethod = Http::METHOD_OTHER; r->method.theImage = SBuf(datum("M", mode)); break;
+    case 10: r->url.scheme_ = AnyP::UriScheme(AnyP::PROTO_UNKNOWN, datum("s", mode)); break;
+    case 11: r->method.theMethod = Http::METHOD_CONNECT; r->url.port_ = 443; strcpy(r->url.host_, datum("h", mode)); break;
+    case 12: strcpy(r->hier.host, datum("p", mode)); break;
+    case 13: r->header.putStr(Http::HdrType::USER_AGENT, datum("u", mode)); break;
+    case 14: r->header.addEntry(new HttpHeaderEntry(Http::HdrType::OTHER, SBuf(datum("X-", mode)), "v")); break;
+    default: {
+        Auth::User::Pointer u = new HarnessUser;
+        u->username(datum("u", mode));
+        Auth::UserRequest::Pointer ur = new HarnessUserRequest;
+        ur->user(u);
+        u->lock(); ur->lock();  // never destroyed
+        r->auth_user_request = ur;
+    } break;
+    }
 }
+
+static void run(const unsigned first, const unsigned last, const Mode mode, const bool firstCodeOnly = false)
+{
+    vf_quiet();
+    AnyP::UriScheme::Init();
+    starting_up = 0;                      // a template error would be swallowed, as at run time
+    Config.onoff.strip_query_terms = 1;   // squid.conf default
+    visible_appname_string = "squid";
+    const unsigned v = first + vf_choose(last - first + 1, "variant");
+    const char *codes = variants[v].codes;
+    const char code = firstCodeOnly ? codes[0] : codes[vf_choose((uint32_t)strlen(codes), "code")];
+    ErrorState *e = rawError();
+    place(e, v, mode);
+    char tmpl[8] = "[%X]";
+    tmpl[2] = code;
+    const SBuf out = e->compile(tmpl, false, true);
+    vf_assert(out.length() >= 2 && out[0] == '[' && out[out.length() - 1] == ']', "template text is kept");
+    checkEscaped(out);
+    vf_reach(variants[v].label);
+    WITNESS_POINT();
+}
+
+// ---------------------------------------------------------------- entries
+extern "C" void c33_pair_norequest(void) { run(0, 6, PAIR); }
+extern "C" void c33_pair_uri(void) { run(7, 10, PAIR); }
+extern "C" void c33_pair_other(void) { run(11, 15, PAIR); }
+#ifdef VF_THOROUGH
+extern "C" void c33_any_norequest(void) { run(0, 6, ANY); }
+extern "C" void c33_any_uri(void) { run(7, 10, ANY); }
+extern "C" void c33_any_other(void) { run(11, 15, ANY); }
+#else
+// quick: one representative %code for five of the places
+extern "C" void c33_any_url(void) { run(0, 1, ANY, true); }         // %U without request, %f
+extern "C" void c33_any_host(void) { run(7, 7, ANY, true); }        // %H
+extern "C" void c33_any_header_user(void) { run(13, 13, ANY, true); }    // %R with a header value
+extern "C" void c33_any_user(void) { run(15, 15, ANY, true); }      // %a
+#endif
